@@ -444,8 +444,13 @@ func (w *worker) run(bi int, beh []map[string]any, res *vh.Result) {
 	var steps []any
 	completed := 1
 	ops := vh.J(st0["ops"])
+	type pdrift struct {
+		what   string
+		replay any
+	}
+	var pending []pdrift
 	drift := func(what string) {
-		res.Drift("", fmt.Sprintf("%s (behaviour %d ops %s async %v)", what, bi, ops, r.async), map[string]any{"ops": st0["ops"], "async": r.async, "steps": steps})
+		pending = append(pending, pdrift{fmt.Sprintf("%s (behaviour %d ops %s async %v)", what, bi, ops, r.async), map[string]any{"ops": st0["ops"], "async": r.async, "steps": append([]any(nil), steps...)}})
 		completed = 0
 	}
 	var subID, unsubID uint32
@@ -650,8 +655,8 @@ func (w *worker) run(bi int, beh []map[string]any, res *vh.Result) {
 			time.Sleep(500 * time.Microsecond)
 		}
 		if !okp {
-			res.Drift("", fmt.Sprintf("state differs after %s:%s: real %s, model %s (behaviour %d ops %s async %v)", thr, act, vh.J(rp), vh.J(mp), bi, ops, r.async),
-				map[string]any{"ops": st0["ops"], "async": r.async, "steps": steps, "real": rp, "model": mp})
+			pending = append(pending, pdrift{fmt.Sprintf("state differs after %s:%s: real %s, model %s (behaviour %d ops %s async %v)", thr, act, vh.J(rp), vh.J(mp), bi, ops, r.async),
+				map[string]any{"ops": st0["ops"], "async": r.async, "steps": append([]any(nil), steps...), "real": rp, "model": mp}})
 			completed = 0
 		}
 	}
@@ -671,6 +676,55 @@ func (w *worker) run(bi int, beh []map[string]any, res *vh.Result) {
 		r.releaseThread(k)
 	}
 
+	if len(pending) > 0 {
+		// The real code left the model. Nothing is parked any more: let the started operations run to the end and
+		// judge the settled state with the monitors that need no model information. A property broken on the
+		// real code is a violation; otherwise the divergence is reported as drift.
+		var prev proj
+		for i := 0; i < 60; i++ {
+			time.Sleep(25 * time.Millisecond)
+			cur := r.project()
+			if i > 2 && vh.J(cur) == vh.J(prev) {
+				break
+			}
+			prev = cur
+		}
+		rp := r.project()
+		found := false
+		fr := func(prop, sig, what string) {
+			found = true
+			res.Violate(prop, sig+"+freerun", fmt.Sprintf("%s (after leaving the model at: %s)", what, pending[0].what), pending[0].replay)
+		}
+		if rp.Subscribed != rp.Hub {
+			fr("C04", fmt.Sprintf("subscribed=%v,routing=%v", rp.Subscribed, rp.Hub), fmt.Sprintf("settled: connection reports subscribed=%v, routing entry present=%v", rp.Subscribed, rp.Hub))
+		}
+		if rp.Closed && rp.Hub {
+			fr("C05", "routing-after-close", "routing entry survives the closed connection")
+		}
+		if rp.Closed && rp.Pres {
+			fr("C05", "presence-after-close", "presence entry survives the closed connection")
+		}
+		j, l := 0, 0
+		for _, k := range rp.JL {
+			if k == "join" {
+				j++
+			} else {
+				l++
+			}
+		}
+		b := 0
+		if rp.Subscribed {
+			b = 1
+		}
+		if j-l != b {
+			fr("C07", fmt.Sprintf("unpaired:joins=%d,leaves=%d,subscribed=%v", j, l, rp.Subscribed), fmt.Sprintf("join/leave not paired: %v with subscribed=%v", rp.JL, rp.Subscribed))
+		}
+		if !found {
+			for _, d := range pending {
+				res.Drift("", d.what, d.replay)
+			}
+		}
+	}
 	last := beh[len(beh)-1]
 	final := completed == 1 && allDone(last)
 	if final {
